@@ -17,7 +17,7 @@ MCMetricRes == {1, 5}
 MCOffs == {0, 15}
 \* thorough
 MCStartsBig == 18..80
-MCDursBig == {1, 2, 5, 14, 15, 16, 29, 31, 44, 181}
+MCDursBig == {1, 2, 5, 15, 16, 31, 44, 181}
 MCNowsBig == {77}
 MCStepsAskedBig == {0, 1, 5, 7, 20}
 MCWidthsBig == {0, 3, 8}
